@@ -12,21 +12,31 @@ func c08Replay(r *an.Run) {
 	p := r.Prog
 
 	r.Obl("restart-replays-every-unfinished-package", "GUARD",
-		"channelLink.resolveFwdPkg replays the settles/fails of the package it is given (processRemoteSettleFails) under exactly one condition, the package's SettleFailFilter not being full, and its adds (processRemoteAdds) under exactly one condition, its AckFilter not being full; both are called once, with that package; channelLink.resolveFwdPkgs hands every package channel.LoadFwdPkgs returned to resolveFwdPkg (every iteration of the loop over exactly that list); processRemoteAdds leaves a loop over the adds by return only after l.failf (the link is being torn down)",
-		"a settle/fail recorded in a forwarding package whose first hand-over to the switch was lost is propagated only by this replay: an additional condition (e.g. all adds of the package resolved) leaves the incoming HTLC and the circuit dangling although downstream was paid", 2,
+		"channelLink.resolveFwdPkg replays the settles/fails of the package it is given (processRemoteSettleFails) exactly when the package's SettleFailFilter is not full, and its adds (processRemoteAdds) exactly when its AckFilter is not full or the package is still in FwdStateLockedIn (a package without adds has a trivially full ack filter and must pass processRemoteAdds once to get its forwarding filter written): each of these conditions alone makes the call unavoidable, nothing else restricts it; both are called once, with that package; channelLink.resolveFwdPkgs hands every package channel.LoadFwdPkgs returned to resolveFwdPkg (every iteration of the loop over exactly that list); processRemoteAdds leaves a loop over the adds by return only after l.failf (the link is being torn down)",
+		"a settle/fail recorded in a forwarding package whose first hand-over to the switch was lost is propagated only by this replay: an additional condition (e.g. all adds of the package resolved) leaves the incoming HTLC and the circuit dangling although downstream was paid; a locked-in package that is never handed to processRemoteAdds is never marked processed, is reloaded at every restart and never collected", 2,
 		func(o *an.Obl) {
 			f := p.Func(hs + "channelLink.resolveFwdPkg")
-			for callee, filter := range map[string]string{"processRemoteSettleFails": "SettleFailFilter", "processRemoteAdds": "AckFilter"} {
-				cs := f.Calls(an.CalleeIs(hs+"channelLink."+callee), true)
-				if !c08OneDirect(o, f, callee, cs) {
+			notFull := func(filter string) an.Fact {
+				c := `$p0.` + filter + `.IsFull()`
+				return an.Truth(canonTerm(`^`+regexpQuote(c)+`$`), false, "!"+c)
+			}
+			lockedIn := an.Cmp(an.FieldPath(an.Param(0), "State"), an.EQ, c08f5LockedIn, "$p0.State == FwdStateLockedIn")
+			for _, rp := range []struct {
+				callee  string
+				allowed []string
+				conds   []an.Fact
+			}{
+				{"processRemoteSettleFails", []string{`^!\(\w+\.SettleFailFilter\.IsFull\(\)\)$`}, []an.Fact{notFull("SettleFailFilter")}},
+				{"processRemoteAdds", []string{`^!\(\w+\.AckFilter\.IsFull\(\)\)$`, `^\w+\.State == (channeldb|chanstate)\.FwdStateLockedIn$`}, []an.Fact{notFull("AckFilter"), lockedIn}},
+			} {
+				cs := f.Calls(an.CalleeIs(hs+"channelLink."+rp.callee), true)
+				if !c08OneDirect(o, f, rp.callee, cs) {
 					continue
 				}
 				if a := f.ArgCanon(cs[0]); a[0] != "$p0" {
-					o.FailAt(f.ID+"#replays-other-package:"+callee, cs[0].Where(), "%s is given %s, expected the package being resolved", callee, a[0])
+					o.FailAt(f.ID+"#replays-other-package:"+rp.callee, cs[0].Where(), "%s is given %s, expected the package being resolved", rp.callee, a[0])
 				}
-				notFull := `$p0.` + filter + `.IsFull()`
-				guarded(o, f, cs[0], an.Truth(canonTerm(`^`+regexpQuote(notFull)+`$`), false, "!"+notFull))
-				onlyGuards(o, f, cs[0], []string{`^!\(\w+\.` + filter + `\.IsFull\(\)\)$`}, callee+" on restart")
+				c08f5CalledExactlyWhen(o, f, cs[0], rp.callee+" on restart", rp.allowed, rp.conds...)
 			}
 			notReassigned(o, f, f.Params(false)[0].Name())
 			// every package the channel has stored is resolved
